@@ -300,10 +300,9 @@ func init() {
 		Exceptions: []report.Exception{
 			{Key: "CT-BRANCH/(*Scalar).signedRadix16/Bytes()[31]>127", Reason: "invariantly false: every Scalar is < l < 2^253 (fiat post-condition 0 ≤ eval out1 < m), so the decision sequence is constant; internal assertion"},
 			{Key: "CT-BRANCH/(*Point).SetBytes/SqrtRatio()#1==0", Reason: "validity decision of a decoder (exempt by the property)"},
-			{Key: "CT-BRANCH/isOnCurve/Equal()!=1", Reason: "validity decision of a decoder (exempt by the property)"},
+			{Key: "CT-BRANCH/isOnCurve/", Prefix: true, Reason: "isOnCurve is the validity predicate of the coordinate importer: validity decision of a decoder (exempt by the property); its only caller is SetExtendedCoordinates (asserted)"},
 			{Key: "CT-BRANCH/(*Point).SetExtendedCoordinates/isOnCurve()", Reason: "validity decision of a decoder (exempt by the property)"},
-			{Key: "CT-BRANCH/isReduced/s[i]>scalarMinusOneBytes[i]", Reason: "validity decision of a decoder (exempt by the property)"},
-			{Key: "CT-BRANCH/isReduced/s[i]<scalarMinusOneBytes[i]", Reason: "validity decision of a decoder (exempt by the property)"},
+			{Key: "CT-BRANCH/isReduced/", Prefix: true, Reason: "isReduced is the validity predicate of the canonical scalar decoder: validity decision of a decoder (exempt by the property); its only caller is SetCanonicalBytes (asserted)"},
 			{Key: "CT-BRANCH/(*Scalar).SetCanonicalBytes/isReduced()", Reason: "validity decision of a decoder (exempt by the property)"},
 		},
 		Floors: []report.Floor{{Rule: "CT-BRANCH", Min: 2 * 50}, {Rule: "CT-INDEX", Min: 2 * 35}, {Rule: "CT-CALL", Min: 2 * 250}, {Rule: "CT-ASM", Min: 2}},
@@ -315,6 +314,20 @@ func init() {
 				}
 				c.addAll(t.Sinks())
 				c.addAll(t.AsmAudit())
+				// the function-scoped exemptions hold only while the predicates serve decoders alone
+				for pred, caller := range map[string]string{"isOnCurve": "(*Point).SetExtendedCoordinates", "isReduced": "(*Scalar).SetCanonicalBytes"} {
+					o := report.Obligation{Rule: "CT-SCOPE", Key: "CT-SCOPE/" + pred, Config: cfg, OK: true, Detail: pred + " is called only by " + caller}
+					pf := c.anchor(t.P, pred)
+					for _, f := range t.P.Funcs {
+						for _, g := range t.P.Callees(f) {
+							if g == pf && load.ShortName(f) != caller {
+								o.OK = false
+								o.Detail = pred + " is exempt as a decoder's validity predicate but is also called by " + load.ShortName(f)
+							}
+						}
+					}
+					c.Set.Add(o)
+				}
 				var ex []string
 				for _, f := range t.VarTimeOnly {
 					ex = append(ex, load.ShortName(f))
